@@ -77,7 +77,7 @@ def cases(draw):
         c["cli"] = draw(st.integers(0, 2)) == 0
         return c
     c["old"] = draw(docs)
-    route = draw(st.sampled_from(["setitem", "update", "reset", "assign", "assign", "clear", "list_append", "buffered"]))
+    route = draw(st.sampled_from(["setitem", "update", "reset", "assign", "assign", "clear", "list_append", "buffered"] + (["job_clear", "job_reset"] if target == "jobdoc" else [])))
     c["route"] = route
     c["k"] = draw(st.sampled_from(["x", "new"]))
     c["v"] = draw(vals)
@@ -176,6 +176,10 @@ def make_writer(case, root, ids):
         if case["target"] == "cache":
             return project
         job = project.open_job(id=ids[0])
+        if case["target"] == "jobdoc" and case.get("route") in ("job_clear", "job_reset"):
+            # a cold handle: this process has never looked at the job's document
+            owners[:] = [job]
+            return project, None, []
         doc = job.doc if case["target"] == "jobdoc" else project.doc
         others = [project.open_job(id=ids[i]).doc for i in (1, 2)]
         doc()  # load outside the enumerated window
@@ -217,6 +221,10 @@ def make_writer(case, root, ids):
                 owners[0].doc = m
         elif r == "clear":
             doc.clear()
+        elif r == "job_clear":
+            owners[0].clear()
+        elif r == "job_reset":
+            owners[0].reset()
         elif r == "list_append":
             if "l" in doc and hasattr(doc["l"], "append"):
                 doc["l"].append(v)
@@ -587,6 +595,9 @@ CONSTRUCTED = [
     {"target": "jobdoc", "threads": False, "torn": [7], "reader": "api", "with_reader": True, "old": {"big": BIG, "l": [0]}, "route": "reset", "k": "x", "v": 0, "m": {"x": 1.5}},
     {"target": "projdoc", "threads": False, "torn": [], "reader": "raw", "with_reader": False, "old": None, "route": "update", "k": "x", "v": 0, "m": {"y": BIG}},
     {"target": "jobdoc", "threads": True, "torn": [3], "reader": "raw", "with_reader": False, "old": {"x": "s", "l": [], "n": {"y": 1}}, "route": "buffered", "k": "x", "v": [1, 2], "m": {}, "others": [[1, "v"], [2, BIG]]},
+    # job.clear() / job.reset() through a handle that has never looked at the document
+    {"target": "jobdoc", "threads": True, "torn": [2], "reader": "raw", "with_reader": True, "old": {"x": 1, "l": [1, 2]}, "route": "job_clear", "k": "x", "v": 0, "m": {"x": 0}},
+    {"target": "jobdoc", "threads": False, "torn": [], "reader": "api", "with_reader": True, "old": {"big": BIG}, "route": "job_reset", "k": "x", "v": 0, "m": {"x": 0}, "interrupts": True},
     {"target": "cache", "threads": True, "torn": [9], "reader": "raw", "with_reader": True, "old_jobs": 2, "cache_exists": True, "add": 2, "remove": 0, "interrupts": True},
     {"target": "cache", "threads": True, "torn": [], "reader": "raw", "with_reader": False, "old_jobs": 3, "cache_exists": True, "add": 0, "remove": 2, "interrupts": True},
     {"target": "cache", "threads": True, "torn": [], "reader": "raw", "with_reader": False, "old_jobs": 2, "cache_exists": True, "add": 1, "remove": 0, "interrupts": True, "cli": True},
